@@ -70,6 +70,13 @@ empty body and the struct has no field besides the mutex, the entries and the bo
 def freezeBody : String := "(block)"
 def cacheFields : List String := ["m", "entries", "onceM"]
 
+/-- The model's `entries` only ever grows (`C20_entries_monotone`) and is all the state there is: there is no capacity, no
+eviction and no state outside the cache value (per thread, per package). In cache.go: no call of `clear`/`delete`, no
+constant, and the only package-level variable is the `Cache` builtin itself. -/
+def entryRemovals : List String := []
+def packageVars : List String := ["builtin_cache"]
+def packageConsts : List String := []
+
 def upd {α : Type} (f : Nat → α) (i : Nat) (v : α) : Nat → α := fun x => if x = i then v else f x
 
 @[simp] theorem upd_same {α} (f : Nat → α) (i v) : upd f i v i = v := by simp [upd]
